@@ -80,14 +80,14 @@ def run(rep, tier, seed):
         recs = rnd.sample(recs, limit)
     cases = []
     VOC = {"d-red", "d-fill-darkblue", "d-text-none", "d-text-ol-red", "d-none", "d-text-bold", "d-text-large", "d-text-ol-thick",
-           "d-thin", "d-arrow", "d-biarrow", "d-dash", "d-dot", "d-dot-dash", "d-flow", "d-flow-fast", "d-flow-slower", "d-flow-rev", "d-grid", "d-grid-5", "d-hatch-10", "d-stipple-2",
+           "d-thin", "d-arrow", "d-biarrow", "d-dash", "d-dot", "d-dot-dash", "d-flow", "d-flow-fast", "d-flow-slower", "d-flow-rev", "d-grid", "d-grid-5", "d-grid-05", "d-hatch-10", "d-stipple-2",
            "d-softshadow", "d-hardshadow", "d-surround"}
     for j, c in enumerate(recs):
         with_text = "text" in c["elems"]
         used = list(c["used"])
         if not with_text and any(k in ("d-text-bold", "d-text-large", "d-text-ol-thick") for k in used):
             pass   # text classes on a shape without text: no text element, no rule expected
-        xml = stylesc.document(used, with_text, root=c["root"])
+        xml = stylesc.document(used, with_text, root=c["root"], place=c.get("place", "shape"))
         cfg = {"add_auto_styles": c["on"], "theme": THEMES[j % 6]}
         if j % 3 == 0:
             cfg["background"] = "lightgrey"     # a setting that only matters when styles are injected
@@ -118,7 +118,12 @@ def run(rep, tier, seed):
             ks.append(rnd.choice(fams["pattern"]))
         if rnd.random() < 0.3:
             ks.append(rnd.choice(names))
-        cases.append({"k": f"c20p-{j}", "xml": stylesc.document(ks, True, author=(j % 4 == 0)), "cfg": {"theme": THEMES[j % 6]},
+        if j % 6 == 1:
+            # the same spacing spelled twice: two classes, two definitions, each url defined once
+            b = rnd.choice(stylesc.PATTERN_BASES)
+            ks += [f"{b}-5", f"{b}-05"]
+        cases.append({"k": f"c20p-{j}", "xml": stylesc.document(ks, True, author=(j % 4 == 0), place=("tspan" if j % 3 == 2 else "shape")),
+                      "cfg": {"theme": THEMES[j % 6]},
                       "case": {"used": ks}, "mode": "full", "author": j % 4 == 0})
     res = vlib.run_cases([{"k": c["k"], "xml": c["xml"], "cfg": c["cfg"]} for c in cases])
     for i, c in enumerate(cases):
